@@ -42,6 +42,8 @@ func verifC14Select(K int) {
 	it, err := q.SelectLogs(context.Background(), 1, 2, logqlengine.SelectLogsParams{
 		Labels: []logql.LabelMatcher{{Label: "container_image", Op: logql.OpEq, Value: "img"}},
 	})
+	// requests that were still in flight when SelectLogs returned finish now
+	vsymDrain()
 	if fc.listErr || fc.failOpen >= 0 {
 		vsymAssert(err != nil, "[sched] a failing daemon request surfaces as an error")
 		for i := 0; i < K; i++ {
